@@ -121,11 +121,9 @@ func (f *Field) sortArgs() (errors []error) {
 				for _, a := range fd.args.list {
 					args = append(args, f.getArg(a.N))
 				}
-				if len(args) != len(f.Args) {
-					for _, av := range f.Args {
-						if fd.getArg(av.Arg) == nil {
-							errors = append(errors, valError(av.line, av.col, "%s is not an argument to %s", av.Arg, f.Name))
-						}
+				for _, av := range f.Args {
+					if fd.getArg(av.Arg) == nil {
+						errors = append(errors, valError(av.line, av.col, "%s is not an argument to %s", av.Arg, f.Name))
 					}
 				}
 				f.Args = args
